@@ -250,6 +250,64 @@ func streamBuiltins(o *Out, r *rand.Rand, n int, thorough bool) {
 
 	}
 	checkTables("")
+	// the math/rand entries are Go's top-level functions: they draw from, and seed, the generator the host's own calls use
+	{
+		pkgEnv := func(e *env.Env) {
+			core.Import(e)
+			_ = e.Define("hostSeed", func(s int64) { rand.Seed(s) })
+		}
+		draws := []struct {
+			src  string
+			host func() interface{}
+		}{
+			{"r.Int63()", func() interface{} { return rand.Int63() }}, {"r.Intn(1000)", func() interface{} { return int64(rand.Intn(1000)) }},
+			{"r.Int31n(77)", func() interface{} { return int64(rand.Int31n(77)) }}, {"r.Float64()", func() interface{} { return rand.Float64() }},
+			{"r.Perm(6)", func() interface{} { return fmt.Sprint(rand.Perm(6)) }}, {"r.Uint32()", func() interface{} { return int64(rand.Uint32()) }},
+			{"r.NormFloat64()", func() interface{} { return rand.NormFloat64() }}, {"r.Int()", func() interface{} { return int64(rand.Int()) }},
+		}
+		norm := func(x interface{}) string {
+			if rv := reflect.ValueOf(x); rv.IsValid() && (rv.Kind() == reflect.Slice || rv.CanInt() || rv.CanUint()) {
+				return fmt.Sprint(x)
+			}
+			return fmt.Sprint(x)
+		}
+		rand.Seed(5)
+		s1 := rand.Int63()
+		rand.Seed(5)
+		seedable := s1 == rand.Int63() // with GODEBUG randseednop=1 the top-level Seed does nothing: then there is nothing to compare
+		if !seedable {
+			o.Sum.Skipped++
+		}
+		for _, d := range draws {
+			if !seedable {
+				break
+			}
+			for _, seed := range []int64{1, 42, 987654321} {
+				// host seeds, script draws
+				rand.Seed(seed)
+				want := norm(d.host())
+				rand.Seed(seed)
+				out := runScript("r = import(\"math/rand\")\n"+d.src, nil, pkgEnv)
+				o.Sum.Evaluations++
+				o.Sum.Hist["math-rand-shared-generator"]++
+				if out.panicked || out.err != nil || norm(out.val) != want {
+					o.Fail(Failure{Oracle: "package-symbol-identity", Key: "package-behaviour:math/rand", Input: fmt.Sprintf("[host] rand.Seed(%d); [script] r = import(\"math/rand\"); %s", seed, d.src),
+						Detail: fmt.Sprintf("Go's math/rand gives %s after that seed; the script got %v (err %v)", want, out.val, out.err)})
+				}
+				// script seeds, host draws
+				rand.Seed(seed)
+				want = norm(d.host())
+				rand.Seed(seed + 1)
+				out = runScript(fmt.Sprintf("r = import(\"math/rand\")\nr.Seed(%d)", seed), nil, pkgEnv)
+				got := norm(d.host())
+				o.Sum.Evaluations++
+				if out.panicked || out.err != nil || got != want {
+					o.Fail(Failure{Oracle: "package-symbol-identity", Key: "package-behaviour:math/rand", Input: fmt.Sprintf("[script] import(\"math/rand\").Seed(%d); [host] %s", seed, strings.Replace(d.src, "r.", "rand.", 1)),
+						Detail: fmt.Sprintf("after rand.Seed(%d) Go's generator gives %s; after the script's Seed the host drew %s (err %v)", seed, want, got, out.err)})
+				}
+			}
+		}
+	}
 	// what a script gets through `import(pkg).Name` is the table entry of that name - for EVERY entry, also those whose
 	// name is a method name of the interpreter's own scope type (Copy, Set, String, Get, Delete ...)
 	{
